@@ -45,7 +45,12 @@ def r19_14(run, model):
             if len(arms) < 2 or not any(re.search(r"!\w+\.insert\(", S.norm_ws(run.facts.text(TOP, i_["cond"]["sp"]))) for i_ in S.find(g.body, "If")):
                 continue
             n += 1
-            shape = {k: re.sub(r"\bdef\.\w+", "def.NAME", S.norm_ws(run.facts.text(TOP, a["body"]["sp"]))) for k, a in arms.items()}
+            shape = {}
+            for k, a in arms.items():
+                t = S.norm_ws(run.facts.text(TOP, a["body"]["sp"]))
+                for b in S.pat_bindings(a["pat"]):
+                    t = re.sub(r"\b" + re.escape(b) + r"\.\w+", "DEF.NAME", t)
+                shape[k] = t
             ok = len(arms) == 3 and len(set(shape.values())) == 1
             run.ob("R19.14", f"{g.name}|enum, struct and extern type names are tested against one another", ok, site(TOP, m["sp"]),
                    f"kinds handled: {sorted(arms)}; per-kind treatment: {sorted(set(shape.values()))}",
